@@ -37,7 +37,7 @@ CLAIM = dict(
     "keeps the stored relative times also for dated images), time_interval_keeps_stored_times. The relative time of a slab is what the parent "
     "stored (roots with dates AND independent stored times are covered), not a function of its date. Tie: differential correspondence on random programs (metadata + slab index lists, AND the whole pixel array entry by entry against np.arange-coded payloads) "
     "(exact, dyadic geometries) + oracle on the implementation tracing every voxel back to its root voxel.",
-    note="geometry on general (non-dyadic) floats is only covered by the oracle with a stated tolerance; Image.slice / reduce_axis are not part of C02; "
+    note="the model has value semantics: that stack() leaves the images passed in untouched and that extraction results do not alias their parent are checked by the oracle on the implementation; geometry on general (non-dyadic) floats is only covered by the oracle with a stated tolerance; Image.slice / reduce_axis are not part of C02; "
     "tuple-of-slices reaching beyond the image are clipped since the fix of Image.subregion (before: outside the property's quantifier).",
     technique="Lean 4 proof (invariant over extraction programs) + differential correspondence + oracle search",
 )
@@ -467,8 +467,20 @@ def stack_eval(d, rs, offs):
             line = f"append {root_tokens(rs[0], origin)} {root_tokens(rs[1], origin)} {fmts([offs[0]])}"
     else:
         offs_ = [0] * (n - 1)
-        res = call(d.stack, [x.copy() for x in ims])
+        # stack receives the image objects themselves; independently built twins serve as the record of "the originals"
+        twins = [build_root(d, r) for r in rs]
+        passed, ims = ims, twins
+        res = call(d.stack, passed)
         line = f"stack {n} " + " ".join(root_tokens(r, origin) for r in rs)
+        if not isinstance(res, Raised):
+            for k in range(n):
+                a_, b_ = passed[k], twins[k]
+                same = (a_ is not res and bool(a_.series) == bool(b_.series) and a_.img.shape == b_.img.shape and np.array_equal(a_.img, b_.img)
+                        and a_.time == b_.time and a_.date == b_.date)
+                if not same:
+                    fails.append((f"C02:stack:changes-its-input:image-{'0' if k == 0 else 'k>0'}",
+                                  f"after stack(images) of {n} single-time images, images[{k}] is no longer the original: series={a_.series}, data shape {a_.img.shape} "
+                                  f"(original {b_.img.shape}), time {a_.time} (original {b_.time})" + ("; stack returned images[0] itself" if a_ is res else "")))
     if isinstance(res, Raised):
         return line, res, rs, offs, [(f"C02:stack:raises:{res!r}", f"stacking {n} single-time images ({tkind}) raises {res!r}")]
     shift = offs if with_offsets else [0] * (n - 1)
